@@ -21,16 +21,65 @@ use crate::verif::report::{hex, Report};
 use crate::verif::scen::{self, advance_until, kind_of, Env};
 use crate::verif::world::Chain;
 
+/// Shape of the scenario worlds (defaults = the C10 worlds).
+#[derive(Clone, Debug)]
+pub(crate) struct Params {
+    pub main_len: u64,
+    /// height the peer first announces
+    pub h1: u64,
+    /// later announcements: sampled path, short path
+    pub h_sampled: u64,
+    pub h_short: u64,
+    pub fork_at: u64,
+    pub fork_tip: u64,
+    pub last_n: u64,
+    pub epoch_len: u64,
+    pub mmr_epoch: u64,
+    pub filter_batch: u64,
+    pub seed: u64,
+}
+
+impl Default for Params {
+    fn default() -> Self {
+        Params {
+            main_len: 30,
+            h1: 12,
+            h_sampled: 30,
+            h_short: 14,
+            fork_at: 11,
+            fork_tip: 24,
+            last_n: 2,
+            epoch_len: 6,
+            mmr_epoch: 0,
+            filter_batch: 5,
+            seed: 0xC0FFEE,
+        }
+    }
+}
+
 pub(crate) struct Worlds {
-    pub main: Chain,  // 30 blocks
-    pub fork: Chain,  // forks off main at 11, tip 24
+    pub main: Chain,
+    /// forks off main at `fork_at`
+    pub fork: Chain,
+    /// same content as main up to h1, but only the tip (h1) is mined (Eaglesong only)
+    pub unmined: Chain,
 }
 
 pub(crate) fn worlds(env: &Env) -> Worlds {
-    let main = scen::std_chain(env, 30, 6);
-    let mut fork = main.fork(11, 99);
-    scen::extend_chain(&mut fork, &env.scripts, 24, &[(13, scen::Act::Mine('A'))]);
-    Worlds { main, fork }
+    worlds_with(env, &Params::default())
+}
+
+pub(crate) fn worlds_with(env: &Env, p: &Params) -> Worlds {
+    let main = scen::std_chain(env, p.main_len, p.epoch_len);
+    let mut fork = main.fork(p.fork_at, 99);
+    scen::extend_chain(&mut fork, &env.scripts, p.fork_tip, &[(p.fork_at + 2, scen::Act::Mine('A'))]);
+    let mut unmined = Chain::new(std::sync::Arc::clone(&env.consensus), scen::wavy_plan(p.epoch_len));
+    unmined.salt = 5;
+    unmined.mine = false;
+    scen::extend_chain(&mut unmined, &env.scripts, p.h1 - 1, &scen::std_acts());
+    unmined.mine = true;
+    scen::extend_chain(&mut unmined, &env.scripts, p.h1, &[]);
+    Worlds { main, fork, unmined }
 }
 
 #[derive(Clone, Copy, Debug, PartialEq, Eq)]
@@ -48,6 +97,8 @@ pub(crate) enum Scn {
     CheckPoints,
     FilterHashes,
     Filters,
+    /// first proof pending for a chain whose non-tip headers fail PoW (meaningful on Eaglesong)
+    UnminedProof,
 }
 
 pub(crate) const ALL_SCN: [Scn; 13] = [
@@ -77,20 +128,28 @@ pub(crate) fn build(env: &Env, w: &Worlds, scn: Scn) -> (Sim, usize) {
 }
 
 pub(crate) fn build_on(env: &Env, w: &Worlds, scn: Scn, old: Option<Sim>) -> (Sim, usize) {
-    let mut world = World::new(vec![w.main.clone(), w.fork.clone()], 4);
-    world.add_peer(1, 0, 12);
-    world.filter_batch = 5;
-    let mut sim = match old {
-        Some(old) => {
-            crate::verif_hooks::rng_reset(0xC0FFEE);
-            crate::verif::client::set_now(crate::verif::world::BASE_TS + 1_000_000);
-            Sim::recycle(old, scen::default_cfg(), world)
-        }
-        None => {
-            crate::verif::client::set_now(crate::verif::world::BASE_TS + 1_000_000);
-            scen::new_sim(env, scen::default_cfg(), world)
-        }
+    build_with(env, w, &Params::default(), scn, old)
+}
+
+pub(crate) fn build_with(env: &Env, w: &Worlds, p: &Params, scn: Scn, old: Option<Sim>) -> (Sim, usize) {
+    let mut world = World::new(vec![w.main.clone(), w.fork.clone(), w.unmined.clone()], 4);
+    if scn == Scn::UnminedProof {
+        world.add_peer(1, 2, p.h1);
+    } else {
+        world.add_peer(1, 0, p.h1);
+    }
+    world.filter_batch = p.filter_batch;
+    let cfg = crate::verif::client::ClientCfg {
+        last_n: p.last_n,
+        mmr_activated_epoch: p.mmr_epoch,
+        ..scen::default_cfg()
     };
+    crate::verif::client::set_now(crate::verif::world::BASE_TS + 1_000_000);
+    let mut sim = match old {
+        Some(old) => Sim::recycle(old, cfg, world),
+        None => scen::new_sim(env, cfg, world),
+    };
+    crate::verif_hooks::rng_reset(p.seed);
     sim.record_trace = std::env::var("C10_TRACE").is_ok();
     let with_scripts = matches!(
         scn,
@@ -111,7 +170,7 @@ pub(crate) fn build_on(env: &Env, w: &Worlds, scn: Scn, old: Option<Sim>) -> (Si
             sim.connect(1);
             true
         }
-        Scn::FirstProof => {
+        Scn::FirstProof | Scn::UnminedProof => {
             sim.connect(1);
             advance_until(&mut sim, is("SendLastStateProof"), 0, 50)
         }
@@ -124,9 +183,9 @@ pub(crate) fn build_on(env: &Env, w: &Worlds, scn: Scn, old: Option<Sim>) -> (Si
             assert!(scen::prove_peer(&mut sim, 1));
             sim.queue.clear();
             match scn {
-                Scn::NewProofSampled => sim.set_view(1, 0, 30, true),
-                Scn::NewProofShort => sim.set_view(1, 0, 14, true),
-                _ => sim.set_view(1, 1, 24, true),
+                Scn::NewProofSampled => sim.set_view(1, 0, p.h_sampled, true),
+                Scn::NewProofShort => sim.set_view(1, 0, p.h_short, true),
+                _ => sim.set_view(1, 1, p.fork_tip, true),
             }
             sim.deliver(0);
             sim.cm().tick_lc(0);
